@@ -70,7 +70,7 @@ CONF = {
  "C11": alloc_conf("C11", "same graph; on every new state: counters == distinct addresses in use, assigned+available == refcidr capacity, no negative counter, allocator dump == dump of a fresh allocator rebuilt from the surviving assignments, every address released by the transition can be assigned to a fresh service"),
  "C04": {
   "level": "exploration",
-  "rule": "every cluster view of 3 nodes: per node (speaker alive, Node object known, ok/NetworkUnavailable/excluded, selected by which L2 advertisement, endpoint state) x memberlist disabled x ignoreExcludeLB x traffic policy x extra endpoint without node name x 9 service/address-list sets (single, dual in both orders, two services sharing an address); the real ShouldAnnounce is evaluated once per node per service on long-lived controllers; plus all explored map-iteration orders of the candidate list for 2..5 eligible nodes; distinct_nontrivial counts distinct views",
+  "rule": "every cluster view of 3 nodes (thorough: 3 nodes over a 144-state per-node catalogue plus 2 nodes over the full 288-state one): per node (speaker alive, Node object known, ok/NetworkUnavailable/excluded, selected by which L2 advertisement, endpoint state) x memberlist disabled x ignoreExcludeLB x traffic policy x extra endpoint without node name x 9 service/address-list sets (single, dual in both orders, two services sharing an address); the real ShouldAnnounce is evaluated once per node per service on long-lived controllers; plus all explored map-iteration orders of the candidate list for 2..5 eligible nodes; distinct_nontrivial counts distinct views",
   "parts": [{"name": "main", "pkg": "speaker", "test": "TestVerif_C04", "shards": {"quick": 16, "thorough": 16}}],
   "rewrites": {"map": MAP_SPEAKER},
   "assumptions": ["the view is what the speakers share (memberlist output taken as input)", "services sharing an address are required to agree only when their eligible sets are equal (same policy, same endpoints) - DESIGN F16"],
